@@ -332,6 +332,96 @@ def runSetters (d : DateObj) : List (Setter × List FV) → DateObj × List Num
     let (fin, rs) := runSetters d' rest
     (fin, r :: rs)
 
+-- ---------------------------------------------------------------- scripted arguments (ToNumber side effects)
+
+/-- an argument as a script sees it: a plain number, an object whose valueOf logs its index and returns a
+    number, or an object whose valueOf logs and throws -/
+inductive Arg where
+  | num (x : FV)
+  | obj (x : FV)
+  | thrower
+deriving DecidableEq, Repr
+
+def Arg.val? : Arg → Option FV
+  | .num x => some x | .obj x => some x | .thrower => none
+def Arg.logs : Arg → Bool
+  | .num _ => false | _ => true
+
+/-- how a call ends: a return value or the exception of a throwing valueOf -/
+inductive Outcome where
+  | ret (n : Num)
+  | threw
+deriving DecidableEq, Repr
+
+/-- result of a conversion loop: `none` = a valueOf threw, `some none` = the loop stopped at a non-finite number,
+    `some (some vs)` = all converted -/
+abbrev Conv := List Nat × Option (Option (List FV))
+
+/-- the conversion loop of builtinDateBeforeSet: `value.number()` per argument, in order; it returns at the first
+    NaN/±Infinity, leaving later arguments unconverted -/
+def convSetterArgs (as : List Arg) (i : Nat) : Conv :=
+  match as with
+  | [] => ([], some (some []))
+  | a :: rest =>
+    let lg := if a.logs then [i] else []
+    match a.val? with
+    | none => (lg, none)
+    | some x =>
+      if (numberArg x).isNone then (lg, some none)
+      else match convSetterArgs rest (i + 1) with
+        | (l, none) => (lg ++ l, none)
+        | (l, some none) => (lg ++ l, some none)
+        | (l, some (some vs)) => (lg ++ l, some (some (x :: vs)))
+
+/-- a setter called with scripted arguments: (object state, outcome, log of valueOf calls) -/
+def setUTCS (k : Setter) (d : DateObj) (args : List Arg) : DateObj × Outcome × List Nat :=
+  match k with
+  | .time =>
+    match args.head? with
+    | none => let d' := d.set .nan; (d', .ret d'.value, [])
+    | some a => match a.val? with
+      | none => (d, .threw, [0])
+      | some x => let d' := d.set x; (d', .ret d'.value, if a.logs then [0] else [])
+  | _ =>
+    let d := if k = .year ∧ d.isNaN then newDate zero else d      -- the restart from +0 happens BEFORE the conversions
+    if d.isNaN then (d, .ret none, [])                            -- invalid date: no argument is converted
+    else
+      let args := args.take k.limit
+      if args.isEmpty then (invalidDateObject, .ret none, [])
+      else match convSetterArgs args 0 with
+        | (l, none) => (d, .threw, l)
+        | (l, some none) => (invalidDateObject, .ret none, l)
+        | (l, some (some vs)) => let (d', r) := setUTC k d vs; (d', .ret r, l)
+
+def runSettersS (d : DateObj) : List (Setter × List Arg) → DateObj × List (Outcome × List Nat)
+  | [] => (d, [])
+  | (k, a) :: rest =>
+    let (d', o, l) := setUTCS k d a
+    let (fin, rs) := runSettersS d' rest
+    (fin, (o, l) :: rs)
+
+/-- the `pick` sequence of newDateTime: returns NaN at the first non-finite field, later arguments unconverted -/
+def convPickArgs (as : List Arg) (i : Nat) : Conv :=
+  match as with
+  | [] => ([], some (some []))
+  | a :: rest =>
+    let lg := if a.logs then [i] else []
+    match a.val? with
+    | none => (lg, none)
+    | some x =>
+      if isNaN x || isInf x then (lg, some none)
+      else match convPickArgs rest (i + 1) with
+        | (l, none) => (lg ++ l, none)
+        | (l, some none) => (lg ++ l, some none)
+        | (l, some (some vs)) => (lg ++ l, some (some (x :: vs)))
+
+/-- Date.UTC with scripted arguments (at least two) -/
+def newDateTimeS (args : List Arg) : Outcome × List Nat :=
+  match convPickArgs (args.take 7) 0 with
+  | (l, none) => (.threw, l)
+  | (l, some none) => (.ret none, l)
+  | (l, some (some vs)) => (.ret (newDateTime vs), l)
+
 -- ---------------------------------------------------------------- formatting / parsing
 
 /-- decimal digits of n, most significant first (at least one) -/
